@@ -239,7 +239,15 @@ def named(ctx):
     # R14.7
     pre = [n for n in g.node.body if isinstance(n, ast.If) and "allowedChar" in norm(n.test)]
     if len(pre) != 1:
-        raise AnalysisError("consumeEntity: pre-check not found")
+        # the pre-check without an additional allowed character: found by its shape (first statement after the first read that
+        # ungets the character); it cannot honour the quote / `>` that ends the attribute value
+        cand = [n for n in g.node.body if isinstance(n, ast.If) and any("unget" in norm(s) for s in n.body) and "charStack[0]" in norm(n.test)]
+        r.idiom("R14.7", False, "pre-check", g.where, "consumeEntity: the not-a-reference pre-check was not found",
+                wrong=[(len(cand) == 1 and "allowedChar" not in g.params(),
+                        "consumeEntity has no additional allowed character any more: in an attribute value `&` directly before the closing "
+                        "quote (title=\"AT&\") or before `>` (title=a&>) is no longer \"not a character reference\": a parse error is "
+                        "recorded for conforming input (strict mode raises) and the look-ahead runs past the delimiter")])
+        return
     # local aliases of the first character read (`c = self.stream.char(); charStack = [c]`)
     first_aliases = [norm(st.targets[0]) for st in g.node.body[:g.node.body.index(pre[0])]
                      if isinstance(st, ast.Assign) and isinstance(st.targets[0], ast.Name) and norm(st.value) == "self.stream.char()"]
